@@ -31,7 +31,7 @@ claimed = {
    "Partially decided (level 'other'): deductive proof per datagram and per event - the receive handler turns every byte string into exactly one of (a) one freshly decoded event sent on the pipe, only for a 64-byte datagram with protocol id 0x17/0x19, function code 0x20, non-zero serial and in-domain fields, every event field being the protocol decoding of the datagram, or (b) exactly one OnError callback; the dispatch goroutine calls OnEvent exactly once per received event with a status whose every field is the mapping of that event (event present iff index != 0, system date and time combined with their civil fields, door maps allocated per event) and never OnError/OnConnected; listen() calls OnConnected exactly once after the driver's Listen succeeded. The driver's Listen refuses port 0, opens exactly one UDP socket bound to the listen address and starts exactly two goroutines (nothing on failure); the stop protocol's events are decided per function: listen() closes the signal channel exactly once, the signal waiter closes the socket exactly once, the receive loop (one buffer able to hold an over-length datagram, one callback per datagram) closes `done` exactly once when it ends. Exactly-once / in-order delivery ACROSS goroutines, the ORDER of shutdown events between goroutines and immediate re-binding are NOT decided (interleavings).",
    BASE_NOTE + "; Listener callbacks, channel sends, receives and closes are ghost events; driver.Listen is an interface contract at the API level, its implementation is verified against its own contract"),
  "C11": ("other", "DESIGN.md section 4 C11",
-   "Partially decided (level 'other'): GetDevices verified with broadcast() and the codec executed in place (loop invariants in both loops): exactly one discovery request with the protocol bytes goes to driver.Broadcast at the configured broadcast address (255.255.255.255:60000 by default); malformed datagrams never make the call fail (it fails only when the driver fails); EXACTNESS over the datagrams logged in arrival order: the result has exactly one entry for each datagram that decodes as a get-device reply (disc.count, defined by recursion) - nothing for a malformed one, and a malformed one hides nothing after it - and entry k carries the serial number, firmware version and date decoded from the k-th such datagram (disc.sel): its own reply, in arrival order, duplicates included; every entry's address is completed with the broadcast port (60000 by default) and carries the name of the matching configured controller; no panic (type assertion included); the reply collector of ut0311.Broadcast keeps every datagram in a buffer of its own (pairwise distinct). The per-entry ADDRESS bytes (IP, mask, gateway, MAC) are not decided at this level (they are for a single reply, C02/C05).",
+   "Partially decided (level 'other'): GetDevices verified with broadcast() and the codec executed in place (loop invariants in both loops): exactly one discovery request with the protocol bytes goes to driver.Broadcast at the configured broadcast address (255.255.255.255:60000 by default); malformed datagrams never make the call fail (it fails only when the driver fails); EXACTNESS over the datagrams logged in arrival order: the result has exactly one entry for each datagram that decodes as a get-device reply (disc.count, defined by recursion) - nothing for a malformed one, and a malformed one hides nothing after it - and entry k carries the serial number, firmware version, date, IP address, subnet mask, gateway and MAC address decoded from the k-th such datagram (disc.sel): its own reply, in arrival order, duplicates included; every entry's address is completed with the broadcast port (60000 by default) and carries the name of the matching configured controller; no panic (type assertion included); the reply collector of ut0311.Broadcast keeps every datagram in a buffer of its own (pairwise distinct).",
    BASE_NOTE + "; driver.Broadcast assumed at the API level: what it returns is logged as the datagrams of the call and is allocated memory (the collector goroutine body and ut0311.Broadcast are verified on their own, C09; their interleaving with the caller is not)"),
  "C12": ("proof", "DESIGN.md section 4 C12",
    "Unbounded deductive proof: bcd.Encode and bcd.Decode are verified against full functional contracts with loop invariants (all strings over the full byte alphabet incl. multi-byte UTF-8, all byte slices), and the two round-trip statements are lemma functions verified modularly against those contracts.",
@@ -50,7 +50,7 @@ claimed = {
    "Unbounded deductive proof relative to a model of package time in which the zone offset is an uninterpreted function (all zones at once): every date producer (ToDate, ParseDate, the wire decoders of Date, DateTime, SystemDate, SystemTime) has a `civil` postcondition - if the civil day / date-time exists in the process-local zone the result has exactly the requested fields - and the encoders write exactly the civil fields. On the current tree the date clauses are provable only under the additional hypothesis that local midnight exists on that day: the missing-midnight case is a genuine defect recorded as four known findings (known_findings.txt), each replayed on the real code.",
    BASE_NOTE + "; the time model (spec/time.spec: time.Date algorithm abs = C - off(C - off(C)), documented guarantee when the civil time exists, calendar bijection) is assumed and conformance-tested (bin/timeconf, thorough tier); the closures that recombine the system date and time of a status (GetStatus$1, Listen$1) are under contract"),
  "C14": ("other", "DESIGN.md section 4 C14",
-   "Partially decided (level 'other'): deductive proof for the leaf types whose parser is repository code over a string - HH:mm (String / HHmmFromString / JSON: accepted exactly in 00:00..24:00 with minutes <= 59, everything else of that form rejected, decode(encode(v)) == v), door control state JSON (exactly the three names), Date JSON and text (blank <-> zero, impossible dates rejected, civil value kept when the day exists in the zone), DateTime JSON (decode(encode(v)) is the same instant to the second for every v held in the process zone or in UTC, in every process zone - over an assumed model of zone designations in time.Format / time.Parse, bounded conformance test in the thorough tier), Weekdays and Segments JSON decoding into a nil map (no panic, a map is created), and the text forms of the four address types (with C15). Card, TimeProfile, Task (values), Version, MacAddress, TaskType by name, CardFormat and PIN are NOT decided: their decoders delegate to encoding/json's reflective decoding, fmt.Sscanf, net.ParseMAC or variable-width decimal text.",
+   "Partially decided (level 'other'): deductive proof for the leaf types whose parser is repository code over a string - HH:mm (String / HHmmFromString / JSON: accepted exactly in 00:00..24:00 with minutes <= 59, everything else of that form rejected, decode(encode(v)) == v), door control state JSON (exactly the three names), Date JSON and text (blank <-> zero, impossible dates rejected, civil value kept when the day exists in the zone), DateTime JSON (decode(encode(v)) is the same instant to the second for every v held in the process zone or in UTC, in every process zone - over an assumed model of zone designations in time.Format / time.Parse, bounded conformance test in the thorough tier), Weekdays and Segments JSON decoding into a nil map (no panic, a map is created), and the text forms of the four address types (with C15). Card, TimeProfile, Task (values), Version, MacAddress, TaskType by name, CardFormat and the accept side of PIN are NOT decided by contracts: their decoders delegate to encoding/json's reflective decoding, fmt.Sscanf, net.ParseMAC, regular-expression rewriting or variable-width decimal text. For these a BOUNDED stand-in runs in both tiers on the real functions (evidence: bounded_checks, driver types_text:composite - all 13 task types, all 65536 versions, all 128 weekday sets, a grid of Task / TimeProfile / Card documents); it is labelled bounded and not counted as proved.",
    BASE_NOTE + "; encoding/json on strings is an abstract quoting; zone designations: spec/time.spec; two known findings (dates whose local midnight does not exist, same defect as C13); two defects fixed (DateTime JSON in zones with numeric designations, nil-map decoders)"),
  "C15": ("proof", "DESIGN.md section 4 C15",
    "Unbounded deductive proof over abstract strings: the four parsers are verified against postconditions stated with the grammar predicates isQuadPort / isQuad / hasQuad (accept with exactly that address and port under the role's port rule, default ports 0 / 60000 / 60000 / mandatory, reject when the rule is violated, reject strings without a dotted quad); Parse(String(a)) == a for accepted addresses is a lemma function per role verified from the parser contracts.",
